@@ -27,7 +27,10 @@ Ltac open_step2 H :=
   try (break_ifs H; try inv_some H);
   unfold jreturn, jnext in *; use_cret2;
   repeat match goal with |- context [if ?b then _ else _] => let E := fresh "Eg" in destruct b eqn:E end;
-  repeat match goal with |- context [match ?i with ITask _ => _ | ISent => _ end] => destruct i end.
+  repeat match goal with |- context [match ?i with ITask _ => _ | ISent => _ end] => destruct i end;
+  repeat match goal with |- context [spput ?n] => destruct n; cbn [spput] end;
+  repeat match goal with |- context [spalive ?l] => destruct l; cbn [spalive] end;
+  repeat match goal with |- context [match wpc ?x with WDead => _ | _ => _ end] => let E := fresh "Epc" in destruct (wpc x) eqn:E end.
 
 Lemma P_ctl s t f s' : I_ctl s -> step s t f = Some s' -> I_ctl s'.
 Proof.
